@@ -203,7 +203,8 @@ type failure struct {
 func wellFormed(view []sigView, nbits int) bool {
 	prevEnd := 0
 	for _, v := range view {
-		if v.start < prevEnd || v.size < 1 || v.size > 64 || v.start+v.size > nbits {
+		// the 64-bit bound concerns decoded signals; a multiplexer (never decoded) may be wider
+		if v.start < prevEnd || v.size < 1 || (v.size > 64 && v.kind != 2) || v.start+v.size > nbits {
 			return false
 		}
 		prevEnd = v.start + v.size
@@ -234,7 +235,7 @@ func lsbAnchoredOverlap(x sigView, fx, fy filt) bool {
 }
 
 func sigInside(v sigView, nbits int) bool {
-	return v.start >= 0 && v.size >= 1 && v.size <= 64 && v.start+v.size <= nbits
+	return v.start >= 0 && v.size >= 1 && (v.size <= 64 || v.kind == 2) && v.start+v.size <= nbits
 }
 
 func checkProps(o obs, payloads [][]byte, nbits int) []failure {
@@ -958,8 +959,15 @@ func genHistory(r *rng) (ops []string) {
 			do(fmt.Sprintf("NE %d %d", k, r.below(nenum)))
 			bitsLeft -= 4
 		default:
-			do(fmt.Sprintf("NX %d %d %d", k, 1+r.below(5), 1+r.below(10)))
-			bitsLeft -= 8
+			if nbytes >= 9 && r.below(2) == 0 {
+				// a multiplexer wider than 64 bits (group size 60..100 + selector)
+				gs := 60 + r.below(41)
+				do(fmt.Sprintf("NX %d %d %d", k, 1+r.below(40), gs))
+				bitsLeft -= gs + 4
+			} else {
+				do(fmt.Sprintf("NX %d %d %d", k, 1+r.below(5), 1+r.below(10)))
+				bitsLeft -= 8
+			}
 		}
 		if r.below(3) == 0 {
 			do(fmt.Sprintf("IN %d %d", k, r.below(8*nbytes)))
